@@ -374,9 +374,11 @@ func init() {
 					pid, _ := peersync.NewPeerID(peerNode)
 					cl.connected = []peersync.PeerID{pid}
 					ps := peersync.NewPeerSync(self, store, cl, w.pol.real, nil, w.ps)
-					payload := []byte(`{"version":7,"assets":["BTC","LBTC"],"peer_allowed":true}`)
-					ps.VerifHandle(context.Background(), peersync.CustomMessage{From: pid, Type: messages.MESSAGETYPE_REQUEST_POLL, Payload: payload})
-					ps.VerifHandle(context.Background(), peersync.CustomMessage{From: pid, Type: messages.MESSAGETYPE_POLL, Payload: payload})
+					// well-formed and malformed payloads alike: the quarantine does not depend on what the peer sends
+					for _, payload := range [][]byte{[]byte(`{"version":7,"assets":["BTC","LBTC"],"peer_allowed":true}`), nil, []byte("{not json"), []byte(`{"version":7,"assets":["BT`), []byte(`{"version":7,"assets":["DOGE"]}`), []byte(`{"version":"x"}`), []byte(`{"btc_swap_in_premium_rate_ppm":99999999}`), []byte(`{}`)} {
+						ps.VerifHandle(context.Background(), peersync.CustomMessage{From: pid, Type: messages.MESSAGETYPE_REQUEST_POLL, Payload: payload})
+						ps.VerifHandle(context.Background(), peersync.CustomMessage{From: pid, Type: messages.MESSAGETYPE_POLL, Payload: payload})
+					}
 					ps.VerifPollPeers(context.Background(), true)
 					ps.RequestPoll(context.Background(), pid)
 					if len(cl.sent) != 0 {
